@@ -30,7 +30,7 @@ package nsqd
 
 // POST /pub?topic=..[&defer=ms]
 //@ func (s *httpServer) doPUB(w http.ResponseWriter, req *http.Request, ps httprouter.Params) (interface{}, error)
-//@   props C10 C01 C04
+//@   props C10 C01 C04 C05 C07
 //@   requires s != nil && s.nsqd != nil && s.nsqd.ci != nil && http_api.mServerReq(req)
 //@   ensures[status] result1 != nil ==> httpErr(result1, 400) || httpErr(result1, 413) || httpErr(result1, 500) || httpErr(result1, 503)
 //@   ensures[topic-name-valid] getTopicCalls != old(getTopicCalls) ==> validName(gotTopicName)
